@@ -6,9 +6,10 @@ ROOT = os.path.abspath(os.path.join(os.path.dirname(os.path.abspath(__file__)), 
 # with --sandbox the patches are applied to /root/scratch/mut/repo and checked by /root/scratch/mut/verif (tools/mut_sandbox.sh),
 # so neither /repo nor /verif's build directories are touched
 SANDBOX = "--sandbox" in sys.argv
-REPO = "/root/scratch/mut/repo" if SANDBOX else "/repo"
+SB = os.environ.get("MUT_SANDBOX", "/root/scratch/mut")
+REPO = SB + "/repo" if SANDBOX else "/repo"
 if SANDBOX:
-    ROOT = "/root/scratch/mut/verif"
+    ROOT = SB + "/verif"
 ENV = dict(os.environ, EVENIO_REPO=REPO)
 base = sys.argv[1]
 names = [a for a in sys.argv[2:] if not a.startswith("--")]
